@@ -203,7 +203,8 @@ def run(ctx: Ctx) -> int:
                 recs = []
                 for i, c in enumerate(codes, start=1):
                     e = table[c]
-                    tg = targets[i - 1]
+                    # every third sequence: all records name one or two hosts (several SRV records for the same target)
+                    tg = targets[i - 1] if k % 3 else targets[(i - 1) % (1 + (k // 3) % 2)]
                     recs.append((e["prio"], e["weight"], tg["port"], _txt(tg["dotted"] if e["dot"] else tg["plain"])))
                 dom = DOMAINS[k % len(DOMAINS)]
                 # "no domain given" is None or the empty string (what a blob protected offline carries)
